@@ -100,3 +100,13 @@ def lin(coefs, syms):
 def evalf(expr, point):
     """numeric value of an SR at a point {name: number}"""
     return float(S.NumEnv({k: Fraction(v) for k, v in point.items()}).value(expr))
+
+
+def decide_once(log, v, key, **kw):
+    """log.decide, but a finding already replayed in this case (same key) is not replayed again: every replay starts a
+    clean interpreter that imports eko (about 10 s)."""
+    if not v.holds and any(x["key"] == key for x in log.violations):
+        log.obligations.append({"case": log.case, "what": v.what, "status": v.status, "time_s": round(v.time, 4), "residual_terms": v.nterms,
+                                "note": "same finding as the replayed violation with key %s" % key})
+        return False
+    return log.decide(v, key=key, **kw)
